@@ -1,7 +1,8 @@
 """C12 plumbing that is independent of the Lean model and of y0's parser:
 
 * NAMES / name_to_int / vname : the variable names the parser's table knows (A..Z without P and Q, Pi, π, each
-  bare, with a digit, with `_digit`), in Python string order, so that int order == string order.
+  bare, with a digit, with `_digit`), plus the name "pi*" of y0.dsl.TARGET_DOMAIN, in Python string order, so that int
+  order == string order.
   (The generic table of gen_graph uses names such as `A07`, which `parse_y0` cannot read.)
 * enc_var / enc_expr / dec_var / dec_expr : the codec of harness/enc_expr.py over this name table.
 * tokens_of(text)     : Python's own `tokenize` -> the driver's token atoms
@@ -17,7 +18,11 @@ import io
 import string
 import tokenize
 
-KW = ("P", "PP", "Sum", "Q", "One", "Zero")
+KW = ("P", "PP", "Sum", "Q", "One", "Zero", "TARGET_DOMAIN")
+
+# the population name of y0.dsl.TARGET_DOMAIN: not an identifier, never written in a text; it has a place in the table
+# so that objects carrying it can be encoded (Lean: `Print.targetName`)
+TARGET_NAME = "pi*"
 
 
 def _all_names():
@@ -29,11 +34,14 @@ def _all_names():
         for i in range(10):
             out.append(f"{letter}{i}")
             out.append(f"{letter}_{i}")
+    out.append(TARGET_NAME)
     return sorted(out)
 
 
 NAMES = _all_names()
 _INDEX = {n: i for i, n in enumerate(NAMES)}
+TARGET_INDEX = 525          # = Print.targetName in lean/Y0/Model/Print.lean
+assert _INDEX[TARGET_NAME] == TARGET_INDEX, "name table and Print.targetName disagree"
 
 
 def vname(i: int) -> str:
@@ -245,7 +253,9 @@ def namespace():
         from y0 import dsl
 
         _NS = {n: dsl.Variable(n) for n in NAMES}
-        _NS.update({"P": dsl.P, "PP": dsl.PP, "Sum": dsl.Sum, "Q": dsl.Q, "One": dsl.One, "Zero": dsl.Zero})
+        _NS.pop(TARGET_NAME)
+        _NS.update({"P": dsl.P, "PP": dsl.PP, "Sum": dsl.Sum, "Q": dsl.Q, "One": dsl.One, "Zero": dsl.Zero,
+                    "TARGET_DOMAIN": dsl.TARGET_DOMAIN})
     return _NS
 
 
